@@ -159,7 +159,24 @@ impl Parts {
         for (k, v) in members {
             m.insert(k, v);
         }
-        Some(Value::Object(m).to_string())
+        let mut text = Value::Object(m).to_string();
+        // unknown members whose values are legal JSON but not representable as serde_json::Value
+        // (spliced in textually): a receiver must skip them like any other unknown member
+        let exotic = match (variant / 32) % 8 {
+            1 => Some("\"zz_big_exp\":1e400".to_string()),
+            2 => Some("\"zz_neg_exp\":-1E+999".to_string()),
+            3 => Some(format!("\"zz_long_int\":{}", "9".repeat(400))),
+            4 => Some("\"zz_lone_surrogate\":\"\\ud800\"".to_string()),
+            5 => Some(format!("\"zz_nested\":{}{}", "[".repeat(60), "]".repeat(60))),
+            _ => None,
+        };
+        if let Some(x) = exotic {
+            text.pop();
+            text.push(',');
+            text.push_str(&x);
+            text.push('}');
+        }
+        Some(text)
     }
 
     pub fn encode(&self, fmt: Fmt, variant: u64) -> Option<String> {
